@@ -179,7 +179,11 @@ func (a *AddrManager) safelyCheckPassword(privPass []byte) error {
 	if err != nil {
 		return err
 	}
-	a.masterKeyPriv.Zero()
+	// while unlocked, checkPassword compares hashes and does not derive the master key;
+	// the derived key is still needed by the operations that rely on the unlocked state
+	if !a.unlocked {
+		a.masterKeyPriv.Zero()
+	}
 	return nil
 }
 
